@@ -8,18 +8,32 @@
    despawns add) and leaves every collected entity dead; despawning a reactor drops its boxed callback (its system
    state and everything it captured).  The signal / channel / collector themselves are verified against the real
    AutoDespawner, for every interleaving, in C10.
+   Proved for whole runs (closed invariant over the ghost set g_auto of entities for which a signal was ever prepared):
+   in every reachable state the collector's channel and the signal table hold only such entities, and a signal is
+   prepared by no command other than a registration in the Cleanup / Revokable modes — so a reactor that is only ever
+   registered in persistent mode is never put on the channel, whatever is revoked, despawned or collected around it.
    NOT proved: the global reference count — that the number of live references equals the number of registrations,
    in-flight registration commands and pending despawn reactions of the reactor at every point of every run, hence
    "exists as long as ... and is collected by the first collection after ...".  That rests on the correspondence
    (lifetime profile: every mode, empty bundles, bundles naming dead entities, every order of revoke / fire / despawn /
    collect; live entities, state drops and table sizes compared after every op). *)
 From Cobweb Require Import Machine.
-From CobwebProofs Require Import RunnerInv LifetimeSpec WorldReactorSpec.
+From CobwebProofs Require Import RunnerInv LifetimeSpec WorldReactorSpec SigSpec.
 
 Theorem persistent_handle_is_never_counted_partial : forall s w, handle_drop (HPersist s) w = w /\ handle_clone (HPersist s) w = w.
 Proof. exact persistent_handle_is_inert. Qed.
 Theorem persistent_registration_changes_no_state_partial : forall (P : program) b s w, fst (apply_prim P (CRegister b s Persistent) w) = w.
 Proof. exact persistent_registration_changes_no_state. Qed.
+Theorem persistent_reactors_are_never_collected : forall (P : program) (fuel : nat) (w' : world), run P fuel = Ok w' ->
+  forall e, In e (gc_chan w') \/ In e (map (fun x => fst (snd x)) (sigs w')) -> In e (g_auto w').
+Proof. exact only_signalled_entities_are_collected. Qed.
+Theorem collected_only_if_signalled_everywhere : forall (P : program) (fuel : nat) (i : instr) (w w' : world),
+  AutoInv w -> exec P fuel i w = Ok w' -> AutoInv w'.
+Proof. exact AutoInv_exec. Qed.
+Theorem signals_come_only_from_refcounted_registration : forall (P : program) c w,
+  g_auto (fst (apply_prim P c w)) = g_auto w \/
+  exists b s m, c = CRegister b s m /\ m <> Persistent /\ g_auto (fst (apply_prim P c w)) = s :: g_auto w.
+Proof. exact signal_prepared_only_by_refcounted_registration. Qed.
 Theorem clone_adds_one_reference_partial : forall g s e n w, alookup g (sigs w) = Some (e, n) ->
   sigs (handle_clone (HAuto g s) w) = aset g (e, n + 1) (sigs w) /\ gc_chan (handle_clone (HAuto g s) w) = gc_chan w.
 Proof. exact clone_adds_one. Qed.
@@ -48,11 +62,15 @@ Definition ex_prog : program :=
 Example ex_runs : exists w', run ex_prog 400 = Ok w' /\ is_alive 101 w' = false /\ is_alive 102 w' = true
   /\ existsb (fun e => match e with EvDropSys 101 => true | _ => false end) (log w') = true
   /\ existsb (fun e => match e with EvRun 102 _ _ _ => true | _ => false end) (log w') = true
-  /\ existsb (fun e => match e with EvRun 101 _ _ _ => true | _ => false end) (log w') = false.
+  /\ existsb (fun e => match e with EvRun 101 _ _ _ => true | _ => false end) (log w') = false
+  /\ g_auto w' = [101].
 Proof. eexists. split; [vm_compute; reflexivity|]. vm_compute. auto 10. Qed.
 
 Print Assumptions persistent_handle_is_never_counted_partial.
 Print Assumptions persistent_registration_changes_no_state_partial.
+Print Assumptions persistent_reactors_are_never_collected.
+Print Assumptions collected_only_if_signalled_everywhere.
+Print Assumptions signals_come_only_from_refcounted_registration.
 Print Assumptions clone_adds_one_reference_partial.
 Print Assumptions drop_takes_one_reference_partial.
 Print Assumptions last_reference_sends_the_reactor_once_partial.
